@@ -1,4 +1,5 @@
 import BarterModel.Lemmas.Clock
+import BarterModel.Lemmas.KernelsAgree.ClockSM
 /-!
 # C20K — engine clocks (sub-check of C20)
 
@@ -332,5 +333,20 @@ example : (HistoricalClock.mk 1000000000 5000000).time 4500000 = 999500000 := by
 -- refinement on a concrete history
 example : (HistoricalClock.new 0 0).run [.process (some 100) 10, .process (some 50) 25, .process (some 100) 30]
     = { timeExchangeLast := 100, timeLiveLastEvent := 30 } := by decide
+
+/-- **Tie to the source by translation.** `LiveClock::{time, process}` and `HistoricalClock::{new, time,
+process}` (with both structs and the trait `TimeExchange`) are regenerated from the current
+`barter/src/engine/clock.rs` by `tools/rust2lean_sm.py` on every run (`Generated/Machines2.lean`, group
+`clock`): `Utc::now()` is the explicit parameter `utc_now` (the model's `now`), the `Arc<RwLock<_>>` is
+transparent (one owner, as in the model), `event.time_exchange()` is a field of an arbitrary
+`TimeExchange` record. The translator's times are whole milliseconds, the model's nanoseconds: through
+the injective embedding `ClockSM.toClock` (`ns = 1 000 000 · ms`) the model's `new`, `time` and the state
+component of `process` equal the generated functions, for all clock states, wall-clock readings, event
+types and events; the logged severity (`Outcome`) and the model's statements about instants between two
+milliseconds are outside this tie. The statement is that of `KernelsAgree.ClockSM.clock_sm_agree`
+(Lemmas/KernelsAgree/ClockSM.lean). -/
+theorem kernels_agree_with_source :
+    type_of% BarterModel.KernelsAgree.ClockSM.clock_sm_agree :=
+  BarterModel.KernelsAgree.ClockSM.clock_sm_agree
 
 end BarterModel.Props.C20K
